@@ -105,7 +105,44 @@ func runC09(c *core.Ctx, r *core.Reporter) {
 	c09assert(c, r)
 	c09nilok(c, r)
 	c09varassert(c, r)
+	c09bounds(c, r)
 }
+
+// derivesFromLispInt: v is computed (conversions, +/- constants) from a slip.Fixnum value or an Int64() result.
+func derivesFromLispInt(v ssa.Value, depth int) bool {
+	if depth > 6 {
+		return false
+	}
+	switch x := v.(type) {
+	case *ssa.Convert:
+		if core.IsNamed(x.X.Type(), core.SlipPath, "Fixnum") {
+			return true
+		}
+		return derivesFromLispInt(x.X, depth+1)
+	case *ssa.ChangeType:
+		return derivesFromLispInt(x.X, depth+1)
+	case *ssa.BinOp:
+		if x.Op == token.ADD || x.Op == token.SUB {
+			return derivesFromLispInt(x.X, depth+1) || derivesFromLispInt(x.Y, depth+1)
+		}
+	case *ssa.Call:
+		if x.Call.IsInvoke() && x.Call.Method.Name() == "Int64" {
+			return true
+		}
+		if g := x.Call.StaticCallee(); g != nil && g.Name() == "Int64" {
+			return true
+		}
+	case *ssa.Phi:
+		for _, e := range x.Edges {
+			if derivesFromLispInt(e, depth+1) {
+				return true
+			}
+		}
+	}
+	return false
+}
+
+
 
 // c09varassert: single-result type assertions on the value of a special variable.
 func c09varassert(c *core.Ctx, r *core.Reporter) {
@@ -1110,4 +1147,245 @@ var idxExceptions = map[string]string{
 	"pkg/flavors.(defHand).Call|param:args[idx0]": "only invoked as Flavor.defaultHandler.Call from Instance.Receive where the argument list is built as append([message], args...), len >= 1; (send inst :nosuch) gives a proper invalid-method error",
 	"pkg/gi.(Select).Call|assert:slip.List[idx0]": "prepClauses is called first and raises TypePanic for any clause that is not a non-empty List; clauses are mutated in place, never shortened",
 	"pkg/gi.(Select).reflectClauses|assert:slip.List[idx0]": "only called from Select.Call after prepClauses validated every clause as a non-empty List",
+}
+
+// c09bounds: a function that validates two indices of one sequence against its length must also order them.
+func c09bounds(c *core.Ctx, r *core.Reporter) {
+	const rule = "C09.bounds"
+	r.Rule(rule, "every function that rejects two different non-constant integers for exceeding the same length (raises when len < a and when len < b: the two are bounding indices of one sequence) also compares the two with each other on the way (raises when b < a, or otherwise branches on their order): validating each bound against the length but not against each other lets a start beyond the end reach the slice expression, a Go run-time panic", 10)
+	an := lenflow.New(c)
+	strip := func(v ssa.Value) ssa.Value {
+		for {
+			switch x := v.(type) {
+			case *ssa.Convert:
+				v = x.X
+				continue
+			case *ssa.ChangeType:
+				v = x.X
+				continue
+			}
+			return v
+		}
+	}
+	for _, fn := range c.ModuleFuncs() {
+		if takesTestingT(fn) || fn.Pkg == nil || fn.Blocks == nil {
+			continue
+		}
+		g := (*core.Guards)(nil)
+		// per length value: the integers checked against it by a raising guard
+		checked := map[string]map[ssa.Value]token.Pos{}
+		lenDesc := map[string]ssa.Value{}
+		var cmps [][2]ssa.Value
+		for _, b := range fn.Blocks {
+			ifi, ok := b.Instrs[len(b.Instrs)-1].(*ssa.If)
+			if !ok {
+				continue
+			}
+			bo, ok := ifi.Cond.(*ssa.BinOp)
+			if !ok {
+				continue
+			}
+			switch bo.Op {
+			case token.LSS, token.LEQ, token.GTR, token.GEQ:
+			default:
+				continue
+			}
+			x, y := strip(bo.X), strip(bo.Y)
+			if _, isK := x.(*ssa.Const); isK {
+				continue
+			}
+			if _, isK := y.(*ssa.Const); isK {
+				continue
+			}
+			if !isIntValue(x) || !isIntValue(y) {
+				continue
+			}
+			if g == nil {
+				g = core.ComputeGuards(fn, an.NoReturn)
+			}
+			// the relation that holds on the raising edge
+			op := bo.Op
+			raises := false
+			switch {
+			case g.Dead[b.Succs[0]] && !g.Dead[b.Succs[1]]:
+				raises = true
+			case g.Dead[b.Succs[1]] && !g.Dead[b.Succs[0]]:
+				raises = true
+				op = map[token.Token]token.Token{token.LSS: token.GEQ, token.LEQ: token.GTR, token.GTR: token.LEQ, token.GEQ: token.LSS}[op]
+			}
+			lx, ly := lengthLike(x), lengthLike(y)
+			switch {
+			case lx && !ly && raises && (op == token.LSS || op == token.LEQ): // len < v raises: v exceeds the length
+				k := lengthKey(x)
+				if checked[k] == nil {
+					checked[k] = map[ssa.Value]token.Pos{}
+				}
+				checked[k][y] = bo.Pos()
+				lenDesc[k] = x
+			case ly && !lx && raises && (op == token.GTR || op == token.GEQ): // v > len raises
+				k := lengthKey(y)
+				if checked[k] == nil {
+					checked[k] = map[ssa.Value]token.Pos{}
+				}
+				checked[k][x] = bo.Pos()
+				lenDesc[k] = y
+			case !lx && !ly:
+				cmps = append(cmps, [2]ssa.Value{x, y})
+			}
+		}
+		n := 0
+		var lks []string
+		for k := range checked {
+			lks = append(lks, k)
+		}
+		minPos := func(k string) token.Pos {
+			var m token.Pos
+			for _, p := range checked[k] {
+				if m == 0 || p < m {
+					m = p
+				}
+			}
+			return m
+		}
+		sort.Slice(lks, func(i, j int) bool { return minPos(lks[i]) < minPos(lks[j]) })
+		dup := map[string]int{}
+		for _, lk := range lks {
+			ints := checked[lk]
+			lv := lenDesc[lk]
+			if len(ints) < 2 {
+				continue
+			}
+			var vals []ssa.Value
+			for v := range ints {
+				vals = append(vals, v)
+			}
+			sort.Slice(vals, func(i, j int) bool { return ints[vals[i]] < ints[vals[j]] })
+			for i := 0; i < len(vals); i++ {
+				for j := i + 1; j < len(vals); j++ {
+					a, b := vals[i], vals[j]
+					ordered := false
+					for _, cp := range cmps {
+						if (related(cp[0], a) && related(cp[1], b)) || (related(cp[0], b) && related(cp[1], a)) {
+							ordered = true
+						}
+					}
+					n++
+					ld := rootDesc(lv)
+					if call, ok := strip(lv).(*ssa.Call); ok && len(call.Call.Args) == 1 {
+						ld = "len(" + rootDesc(call.Call.Args[0]) + ")"
+					}
+					key := fmt.Sprintf("%s|%s,%s vs %s", core.SSAName(fn), rootDesc(a), rootDesc(b), ld)
+					dup[key]++
+					if k := dup[key]; k > 1 {
+						key = fmt.Sprintf("%s#%d", key, k)
+					}
+					r.Decide(ordered, rule, key, c.Pos(ints[a]), fmt.Sprintf("both are checked against the same length; compared with each other: %v", ordered))
+				}
+			}
+		}
+	}
+}
+
+func isIntValue(v ssa.Value) bool {
+	bt, ok := v.Type().Underlying().(*types.Basic)
+	return ok && bt.Info()&types.IsInteger != 0
+}
+
+// lengthKey: len(x) taken twice is one length.
+func lengthKey(v ssa.Value) string {
+	for {
+		if cv, ok := v.(*ssa.Convert); ok {
+			v = cv.X
+			continue
+		}
+		break
+	}
+	if call, ok := v.(*ssa.Call); ok {
+		if bi, ok := call.Call.Value.(*ssa.Builtin); ok && bi.Name() == "len" && len(call.Call.Args) == 1 {
+			return fmt.Sprintf("len:%p", canonVal(call.Call.Args[0]))
+		}
+		if rc := callReceiver(call); rc != nil {
+			return fmt.Sprintf("%s:%p", callMethodName(call), canonVal(rc))
+		}
+	}
+	if u, ok := v.(*ssa.UnOp); ok && u.Op == token.MUL {
+		if fa, ok := u.X.(*ssa.FieldAddr); ok {
+			return fmt.Sprintf("field:%p.%d", canonVal(fa.X), fa.Field)
+		}
+	}
+	return fmt.Sprintf("val:%p", v)
+}
+
+// lengthLike: len(x), or a value all of whose sources are len(...) or a Length()/Len() call (a size variable).
+func lengthLike(v ssa.Value) bool {
+	return lengthLikeD(v, 0)
+}
+
+func lengthLikeD(v ssa.Value, depth int) bool {
+	if depth > 4 {
+		return false
+	}
+	switch x := v.(type) {
+	case *ssa.Convert:
+		return lengthLikeD(x.X, depth+1)
+	case *ssa.Call:
+		if bi, ok := x.Call.Value.(*ssa.Builtin); ok && bi.Name() == "len" {
+			return true
+		}
+		name := callMethodName(x)
+		return name == "Length" || name == "Len"
+	case *ssa.UnOp:
+		if x.Op == token.MUL {
+			if fa, ok := x.X.(*ssa.FieldAddr); ok && fieldName(fa) == "Len" {
+				return true
+			}
+		}
+	case *ssa.Phi:
+		any := false
+		for _, e := range x.Edges {
+			if k, isK := e.(*ssa.Const); isK && k.Value != nil {
+				continue // size := 0 default
+			}
+			if !lengthLikeD(e, depth+1) {
+				return false
+			}
+			any = true
+		}
+		return any
+	}
+	return false
+}
+
+// related: the same value, or one is a phi that has the other among its incoming values (end := -1; end = int(n)).
+func related(a, b ssa.Value) bool {
+	if a == b {
+		return true
+	}
+	has := func(p ssa.Value, v ssa.Value) bool {
+		ph, ok := p.(*ssa.Phi)
+		if !ok {
+			return false
+		}
+		for _, e := range ph.Edges {
+			for {
+				if cv, ok := e.(*ssa.Convert); ok {
+					e = cv.X
+					continue
+				}
+				break
+			}
+			if e == v {
+				return true
+			}
+			if p2, ok := e.(*ssa.Phi); ok {
+				for _, e2 := range p2.Edges {
+					if e2 == v {
+						return true
+					}
+				}
+			}
+		}
+		return false
+	}
+	return has(a, b) || has(b, a)
 }
